@@ -76,8 +76,12 @@ CTES = [b'Content-Transfer-Encoding: 8bit', b'Content-Transfer-Encoding: 7bit', 
         b'Content-Transfer-Encoding: 8bit\r\n\t(folded)', b'CONTENT-TRANSFER-ENCODING:8bit']
 
 
-def _header(rng, cte=None, longline=None, extra=()):
-    hs = [rng.choice(HEADERS7) for _ in range(rng.randrange(0, 4))] + list(extra)
+HEADERS_NOCT = [h for h in HEADERS7 if not h.lower().startswith(b'content-type:')]
+
+
+def _header(rng, cte=None, longline=None, extra=(), pool=None):
+    pool = pool or HEADERS7
+    hs = [rng.choice(pool) for _ in range(rng.randrange(0, 4))] + list(extra)
     if cte is None:
         cte = rng.random() < 0.4
     if cte:
@@ -115,6 +119,8 @@ BAD_BOUNDARIES = [(b'', True), (b'a' * 71, False), (b'a' * 71, True), (b'ab ', T
 def _multipart(rng, depth=0):
     b = rng.choice(BOUNDARIES)
     quoted = rng.random() < 0.5
+    if any(ch in b'()<>@,;:\\"/[]?=' for ch in b) and rng.random() < 0.9:
+        quoted = True              # RFC 2045 token rules: such a boundary must be quoted (unquoted: Content-Type syntax error)
     if rng.random() < 0.08:        # boundary definitions Qremote refuses (empty, too long, trailing blank, bad character) or barely accepts
         b, quoted = rng.choice(BAD_BOUNDARIES)
     ct = b'Content-Type: multipart/' + rng.choice([b'mixed', b'alternative', b'related']) + b';' + rng.choice([b' ', b'\r\n\t', b''])
@@ -122,11 +128,11 @@ def _multipart(rng, depth=0):
     if rng.random() < 0.2:
         ct += b'; x=y'
     eol = rng.choice([b'\r\n', b'\r\n', b'\n', b'\r'])
-    hdr = _header(rng, cte=rng.random() < 0.2, extra=[ct])
+    hdr = _header(rng, cte=rng.random() < 0.2, extra=[ct], pool=HEADERS_NOCT if rng.random() < 0.85 else HEADERS7)
     kinds = rng.choice([['a'], ['a', '8bit'], ['a', 'dots'], ['8bit', 'blanks', 'dots']])
     pre = _body(rng, ['a'] if rng.random() < 0.8 else kinds, rng.randrange(0, 3), eols=[eol])
     out = hdr + pre
-    shape = rng.choice(['ok', 'ok', 'ok', 'ok', 'noend', 'nobound', 'endfirst', 'dup', 'trail', 'tpad'])
+    shape = rng.choice(['ok', 'ok', 'ok', 'ok', 'ok', 'ok', 'ok', 'noend', 'nobound', 'endfirst', 'dup', 'trail', 'tpad', 'tpad'])
     nparts = rng.randrange(1, 4)
     if shape == 'nobound':
         return out + _body(rng, kinds, 3, eols=[eol])
